@@ -4,4 +4,35 @@ import Nv.Gen.C05
 namespace Nv.C05
 theorem tie_facts : Nv.Gen.C05.facts = Facts.expected := by decide
 theorem tie_cfg_proved : Proved Nv.Gen.C05.cfg := by decide
+
+/-- The translated kernel `deadline(ttl)` (BitVec 64, Go semantics; `now()` is the parameter `now`) and the
+    comparison `now() > node.deadline` of `get()` are what the model calls `deadline` / `expired`, for every
+    ttl and every clock reading `t`, provided `now + ttl` does not overflow int64 (for `ttl ≤ 0` always). -/
+theorem tie_deadline_kernel (ttl now t : BitVec 64) (hno : ttl.toInt ≤ 0 ∨ now.toInt + ttl.toInt < 2^63) :
+    (Nv.Gen.C05.deadline ttl now).slt t = expired t.toInt (deadline now.toInt ttl.toInt) := by
+  unfold Nv.Gen.C05.deadline deadline
+  have hb := BitVec.toInt_lt (x := t)
+  have hn := BitVec.le_toInt (x := now)
+  by_cases h : ttl.toInt ≤ 0
+  · have : BitVec.sle ttl 0#64 = true := by rw [BitVec.sle_iff_toInt_le]; simpa using h
+    simp only [this, if_true, h, expired]
+    rw [Bool.eq_false_iff]
+    intro hh
+    rw [BitVec.slt_iff_toInt_lt] at hh
+    have : (9223372036854775807#64 : BitVec 64).toInt = 9223372036854775807 := by decide
+    omega
+  · have : BitVec.sle ttl 0#64 = false := by
+      rw [Bool.eq_false_iff]; intro hh; rw [BitVec.sle_iff_toInt_le] at hh; exact h (by simpa using hh)
+    simp only [this, Bool.false_eq_true, if_false, h, expired]
+    have hadd : (now + ttl).toInt = now.toInt + ttl.toInt := by
+      rw [BitVec.toInt_add, Int.bmod_def]
+      rcases hno with h1 | h1
+      · exact absurd h1 h
+      · omega
+    rw [Bool.eq_iff_iff, BitVec.slt_iff_toInt_lt, hadd]
+    simp
+
+/-- non-vacuity: ttl 60 at clock 1700000000 gives deadline 1700000060, elapsed at 1700000061 and not before -/
+example : (Nv.Gen.C05.deadline 60#64 1700000000#64).slt 1700000061#64 = true ∧
+    (Nv.Gen.C05.deadline 60#64 1700000000#64).slt 1700000060#64 = false := by decide
 end Nv.C05
